@@ -1158,6 +1158,16 @@ class Interp:
             else:
                 fv = self.bound_method(selfv, found)
             return self._call_with_args(fv, e, st, ctx)
+        if isinstance(f, ast.Attribute):
+            # method-call position: `x.m(...)` on a symbolic object is a method call, not a field read
+            # (unless `m` is declared as a field holding a callable)
+            c2 = dict(ctx)
+            c2["$call_position"] = True
+
+            def on_recv(q, ov):
+                return self.bind(self.getattr(q, ov, f.attr, c2 if isinstance(ov, Sym) else ctx),
+                                 lambda r, fv: self._call_with_args(fv, e, r, ctx))
+            return self.bind(self.eval(f.value, st, ctx), on_recv)
         return self.bind(self.eval(f, st, ctx), lambda q, fv: self._call_with_args(fv, e, q, ctx))
 
     def _call_with_args(self, fv, e, st, ctx):
